@@ -104,7 +104,8 @@ def run_unit(template, overlay=None, tag="", tier="quick", keep=True, timeout=60
         if re.search(pat, g.text):
             res.undecided.append("forbidden construct %s in generated text" % pat)
     os.makedirs(OUT, exist_ok=True)
-    stem = unit + (("__" + tag) if tag else "")
+    unique = os.environ.get("VERIF_UNIQUE_OUT", "0") == "1"     # property checks: concurrent runs must not share generated files
+    stem = unit + (("__" + tag) if tag else "") + ("__p%d" % os.getpid() if unique else "")
     outfile = os.path.join(OUT, "gen", stem + ".rs")
     os.makedirs(os.path.dirname(outfile), exist_ok=True)
     with open(outfile, "w") as f:
@@ -146,7 +147,7 @@ def run_unit(template, overlay=None, tag="", tier="quick", keep=True, timeout=60
                 pass
     classify(res, g, oj, diags, stderr)
     res.trusted = scan_trusted(g)
-    if not keep and not res.failed() and not res.undecided:
+    if (not keep or unique) and not res.failed() and not res.undecided:
         try:
             os.unlink(outfile)
         except OSError:
